@@ -101,7 +101,7 @@ def snapshot(root, with_mtime=True):
             else:
                 with open(full, 'rb') as f:
                     data = f.read()
-                out[v] = ('f', _stat.S_IMODE(st.st_mode), data if len(data) <= 4096 else hashlib.sha1(data).hexdigest(), mt)
+                out[v] = ('f', _stat.S_IMODE(st.st_mode), data if len(data) <= 32768 else hashlib.sha1(data).hexdigest(), mt)
     walk(broot, '/')
     return out
 
@@ -188,6 +188,18 @@ class Shim:
 
     def after_mutation(self):
         """SIGINT-like interruption: KeyboardInterrupt raised right after the k-th syscall-level mutation returned"""
+        mf = self.plan.get('midfs')         # {'after': k, 'ops': [...]}: someone else changes the file system right after the k-th mutation
+        if mf is not None and self.nmut == mf['after'] and not getattr(self, '_midfs_done', False):
+            self._midfs_done = True
+            for op in mf.get('ops') or []:
+                try:
+                    if op[0] == 'chmod':
+                        self.orig['os.chmod'](op[1], op[2])
+                    elif op[0] == 'to_link':          # replace a directory by a symbolic link to where it was moved
+                        self.orig['os.rename'](op[1], op[2])
+                        self.orig['os.symlink'](op[2], op[1])
+                except OSError:
+                    pass
         ik = self.plan.get('interrupt')
         if ik is not None and self.nmut == ik:
             raise KeyboardInterrupt()
